@@ -275,6 +275,74 @@ def check_deciders(h: Harness):
                 h.fail("DynamicSGEDecider.random_int", "max-unreachable", f"random_int({lo},{hi}) never returns {hi}", [lo, hi])
 
 
+def check_same_genes_same_stream(h: Harness):
+    """"two sources created with the same seed produce the same stream" for the genotype-backed sources: the seed is
+    the gene list.  Two (three) sources over equal genes, alive at the same time and consumed one after the other,
+    both created first, or alternately, must each produce the stream a source consumed alone produces."""
+    rng = h.rng
+
+    def ops_for(n):
+        out = []
+        for i in range(n):
+            lo = rng.randint(-5, 5)
+            out.append((rng.choice(["randint", "randint", "choice", "bool", "weighted", "shuffle"]), lo, lo + rng.choice([0, 1, 2, 9, 1000])))
+        return out
+
+    def draw(src, op, key):
+        kind, lo, hi = op
+        if kind == "randint":
+            return src.randint(lo, hi, key) if key is not None else src.randint(lo, hi)
+        if kind == "choice":
+            return src.choice(["p", "q", "r", "s"])
+        if kind == "bool":
+            return src.random_bool()
+        if kind == "weighted":
+            return src.choice_weighted(["a", "b", "c"], [1, 2, 1])
+        return tuple(src.shuffle([1, 2, 3, 4]))
+
+    for _ in range(h.n(60, 600)):
+        n = rng.randint(2, 6)
+        genes = [rng.randrange(0, 10**6) for _ in range(n)]
+        keys = ["$infrastructure", "ka", "kb"]
+        sdna = {k: [rng.randrange(0, 10**6) for _ in range(rng.randint(1, 4))] for k in keys}
+        makers = [("ge.ListWrapper", lambda: GEListWrapper(list(genes)), None),
+                  ("stackgggp.ListWrapper", lambda: StackListWrapper(list(genes)), None),
+                  ("StructuredListWrapper", lambda: StructuredListWrapper({k: list(v) for k, v in sdna.items()}), "k")]
+        ops = ops_for(rng.randint(3, 10))
+        for name, mk, keyed in makers:
+            def keyfor(i, op):
+                return rng_keys[i] if (keyed and op[0] == "randint") else None
+            rng_keys = [rng.choice(["ka", "kb", "$infrastructure"]) for _ in ops]
+            solo = mk()
+            ref = [draw(solo, op, keyfor(i, op)) for i, op in enumerate(ops)]
+            for pattern in ("sequential", "both-created-first", "alternating"):
+                if pattern == "sequential":
+                    a = mk()
+                    sa = [draw(a, op, keyfor(i, op)) for i, op in enumerate(ops)]
+                    b = mk()
+                    sb = [draw(b, op, keyfor(i, op)) for i, op in enumerate(ops)]
+                elif pattern == "both-created-first":
+                    a, b = mk(), mk()
+                    sa = [draw(a, op, keyfor(i, op)) for i, op in enumerate(ops)]
+                    sb = [draw(b, op, keyfor(i, op)) for i, op in enumerate(ops)]
+                else:
+                    a, b = mk(), mk()
+                    sa, sb = [], []
+                    for i, op in enumerate(ops):
+                        sa.append(draw(a, op, keyfor(i, op)))
+                        sb.append(draw(b, op, keyfor(i, op)))
+                h.seen(f"same-genes:{name}:{pattern}:{genes}:{ops}")
+                h.count(f"same-genes:{name}:{pattern}")
+                if sa != ref or sb != ref:
+                    which = "first" if sa != ref else "second"
+                    got = sa if sa != ref else sb
+                    j = next(i for i in range(len(ref)) if got[i] != ref[i])
+                    h.fail(name, "same-seed-different-stream",
+                           f"two {name} sources over the same genes, {pattern}: draw #{j} ({ops[j][0]}{ops[j][1:]}) of the {which} source is {got[j]!r}, "
+                           f"a source consumed alone gives {ref[j]!r}", {"genes": genes if not keyed else sdna, "ops": ops, "pattern": pattern})
+                    break
+
+
 def check_native(h: Harness):
     rng = h.rng
     for seed in [0, 1, 123, rng.randrange(10**6)]:
@@ -314,4 +382,5 @@ def run(h: Harness):
     check_weighted(h)
     check_randint_sources(h)
     check_deciders(h)
+    check_same_genes_same_stream(h)
     check_native(h)
